@@ -427,8 +427,9 @@ type c14Env struct {
 var c14Clock atomic.Int64
 
 func c14Boot(t *testing.T, tx, cache bool) *c14Env {
-	v := vBoot(t, vOpts{Transactional: tx, Cache: cache, Logical: map[string]logical.Factory{"c14kv": kv.VersionedKVFactory}})
-	v.Mount(c14Mount, "c14kv", "", map[string]any{"version": "2"})
+	v := vBoot(t, vOpts{Transactional: tx, Cache: cache, Logical: map[string]logical.Factory{"kv": kv.VersionedKVFactory}})
+	// only the type name "kv" may carry a version option (logical_system.go handleMount)
+	v.Mount(c14Mount, "kv", "", map[string]any{"version": "2"})
 	pref, ok := v.Core.router.MatchingStoragePrefixByAPIPath(namespace.RootContext(t.Context()), c14Mount+"/")
 	if !ok || pref == "" {
 		t.Fatalf("verif: no storage prefix for the kv mount")
@@ -758,7 +759,9 @@ func (h *c14Hist) check(r *kit.Result, caseID string, faultFree bool, extra map[
 	sort.Strings(paths)
 	witness := func(p string) map[string]any {
 		var lines []string
-		for _, o := range byPath[p] {
+		sorted := append([]c14Op(nil), byPath[p]...)
+		sort.SliceStable(sorted, func(i, j int) bool { return sorted[i].Call < sorted[j].Call })
+		for _, o := range sorted {
 			lines = append(lines, o.String())
 		}
 		w := map[string]any{"store": h.e.label, "config": h.cfg, "path": p, "ops": lines}
@@ -952,7 +955,10 @@ func c14Gen(rng *kit.Rand, g c14GenOpts, k *c14Know, n int) c14In {
 			in.Data["p"+strconv.Itoa(rng.Intn(2))] = id
 		}
 		if rng.Chance(1, 4) {
-			in.Null = []string{kit.Pick(rng, []string{"w", "p0", "p1"})}
+			nk := kit.Pick(rng, []string{"w", "p0", "p1"})
+			if _, both := in.Data[nk]; !both {
+				in.Null = []string{nk}
+			}
 		}
 	case w < 62:
 		in.Kind = "read"
@@ -1679,7 +1685,7 @@ type c14Scen struct {
 }
 
 func c14Scens() []c14Scen {
-	two := func(p string) []c14In { return []c14In{c14W(p, -1, "a1"), c14W(p, -1, "a2")} }
+	two := func(p string) []c14In { return []c14In{c14W(p, 0, "a1"), c14W(p, 1, "a2")} }
 	rd := func(p string, v int) c14In {
 		return c14In{Kind: "read", Path: p, Version: v, Cas: -1, MaxV: -1, CasReq: -1, MCas: -1}
 	}
